@@ -535,6 +535,7 @@ func (nw *Network) startNode(sn *SimNode, opts NodeOpts, current, genesis []*pee
 	px := inmem.NewInmemProxy(app, conf.Logger())
 	tr := &simTransport{nw: nw, self: sn, ch: make(chan bnet.RPC)}
 	nd := node.NewNode(conf, node.NewValidator(sn.Key, sn.Name), peers.NewPeerSet(current), peers.NewPeerSet(genesis), store, tr, px)
+	app.LastRound = func() int { return store.LastRound() }
 	sn.Opts = opts
 	sn.Conf = conf
 	sn.Node = nd
